@@ -361,6 +361,15 @@ pub fn check(property: &str, tier: &str) -> i32 {
                     let _ = std::fs::write(&file, serde_json::to_string_pretty(&rf).unwrap_or_default());
                     // does it reproduce in a fresh child?
                     if replay_in_child_dies(&file) {
+                        // minimise: every candidate runs in its own child process (only aborts: a hang costs the watchdog time per try)
+                        if kind == "abort" && restarts < 3 {
+                            let mut pred = |t: &Trace| trace_in_child_dies(t);
+                            let (min, execs) = shrink::shrink_with(&rf.trace, &mut pred, 400, 240);
+                            let mut rf2 = rf.clone();
+                            rf2.trace = min;
+                            rf2.shrink_execs = execs;
+                            let _ = std::fs::write(&file, serde_json::to_string_pretty(&rf2).unwrap_or_default());
+                        }
                         death_reports.push(ViolationReport {
                             v: Violation { property: property.to_string(), class: "process-death".into(), sig: kind.into(), group: kind.into(), detail: rf.detail.clone(), session: 0, step: 0 },
                             replay: file.to_string_lossy().to_string(),
@@ -475,6 +484,21 @@ pub fn check(property: &str, tier: &str) -> i32 {
         return 2;
     }
     0
+}
+
+fn trace_in_child_dies(t: &Trace) -> bool {
+    let Ok(exe) = std::env::current_exe() else { return false };
+    static N: std::sync::atomic::AtomicUsize = std::sync::atomic::AtomicUsize::new(0);
+    let k = N.fetch_add(1, std::sync::atomic::Ordering::SeqCst);
+    let tf = work_dir().join(format!("death-{}-{}.trace.json", std::process::id(), k));
+    let _ = std::fs::write(&tf, serde_json::to_string(t).unwrap_or_default());
+    let st = Command::new(exe).args(["run-trace", &tf.to_string_lossy()]).stdout(Stdio::null()).stderr(Stdio::null()).status();
+    let _ = std::fs::remove_file(&tf);
+    match st {
+        // exit codes 0/1/2 are the harness's own (clean, violation, harness error): anything else is the death of the process
+        Ok(s) => !matches!(s.code(), Some(0) | Some(1) | Some(2)),
+        Err(_) => false,
+    }
 }
 
 fn replay_in_child_dies(file: &Path) -> bool {
